@@ -158,6 +158,22 @@ def c02_all_nontemp_shapes(repo):
     return [s for s in c02_shapes(repo) if s["cls"] != "GeckoTempStructAccessor"]
 
 
+def c04_platforms(repo):
+    mods = all_modules(repo)
+    out = []
+    for p in sorted((m for m in mods if m.get("kind") == "pack"), key=lambda m: m["module"]):
+        cfg = sorted(m["file_version"] for m in mods if m.get("kind") == "cfg" and m["platform"] == p["platform"])
+        log = sorted(m["file_version"] for m in mods if m.get("kind") == "log" and m["platform"] == p["platform"])
+        out.append({"id": p["platform"], "platform": p["platform"], "name": p.get("name"), "cfg": cfg, "log": log,
+                    "example": "%s: %d config x %d log versions" % (p["platform"], len(cfg), len(log))})
+    return out
+
+
+def c14_units(repo):
+    return [{"id": "celsius", "celsius": True, "example": "TempUnits == C"},
+            {"id": "fahrenheit", "celsius": False, "example": "TempUnits == F"}]
+
+
 # ===================================================================== C18 ground checks
 def _interp(repo):
     from .interp import Interp
@@ -339,3 +355,25 @@ if __name__ == "__main__":
         os.makedirs(os.path.dirname(PINNED), exist_ok=True)
         json.dump({"commit": commit, "modules": layout_record(repo)}, open(PINNED, "w"), separators=(",", ":"), sort_keys=True)
         print("pinned", commit, os.path.getsize(PINNED))
+
+
+def c04_regex_bounded(repo, tier):
+    """bounded stand-in (never counted as proved): real _extract_packet_parts, native"""
+    import subprocess
+    bound = 3 if tier == "quick" else 5
+    env = dict(os.environ)
+    env["PYTHONPATH"] = os.path.join(repo, "src")
+    verif = os.path.dirname(os.path.dirname(os.path.abspath(__file__)))
+    p = subprocess.run([os.environ.get("PYVC_NATIVE_PY", "/venv/bin/python"), os.path.join(verif, "native", "c04_regex_bounded.py"), str(bound)],
+                       capture_output=True, text=True, env=env, timeout=3000)
+    try:
+        r = json.loads(p.stdout.strip().splitlines()[-1])
+    except Exception:
+        return {"name": "bounded", "backend": "bounded-native-enumeration", "obligations": [
+            {"name": "BOUNDED/_extract_packet_parts", "status": "unknown", "detail": (p.stdout + p.stderr)[-400:]}]}
+    ok = not r["bad"]
+    return {"name": "bounded", "backend": "bounded-native-enumeration(NOT a proof)", "bounded": True,
+            "obligations": [{"name": "BOUNDED/_extract_packet_parts-returns-the-three-fields(token strings <= %d, %d cases)" % (bound, r["cases"]),
+                             "status": "proved" if ok else "refuted", "detail": json.dumps(r["bad"][:3]),
+                             "witness": r["bad"][:3], "confirmed": not ok}],
+            "samples": [{"bounded_cases": r["cases"], "bound_tokens": bound}]}
